@@ -63,6 +63,23 @@ def cases(ctx, budget):
             if rng.random() < 0.25: t = ("not", t)
             if rng.random() < 0.2: t = ("rel", [("child", [("filter", t)])])
             q = [(("child" if box < 0.5 and rng.random() < 0.7 else "desc"), [("filter", t)])]
+        if rng.random() < 0.1:
+            # `$` inside a filter nested - to any depth - below relative queries that have segments of their own is the query argument, never the
+            # node an enclosing relative query started from: documents with the same names at every level and differing values tell them apart
+            k1, k2, k3 = rng.choice(names), rng.choice(names), rng.choice(names)
+
+            def doc(d):
+                if d == 0: return rng.choice([1, 2, 3, "x", True, None])
+                if rng.random() < 0.25: return [doc(d - 1) for _ in range(rng.randint(1, 3))]
+                return {nm: (doc(d - 1) if rng.random() < 0.6 else rng.choice([1, 2, 3, "x"])) for nm in rng.sample(names, rng.randint(2, min(4, len(names))))}
+            v = doc(3)
+            inner_abs = ("abs", [("child", [("name", k3)])])
+            inner_test = rng.choice([("cmp", rng.choice(["==", "!=", "<", ">="]), ("rel", []), inner_abs),
+                                     ("cmp", "==", ("rel", [("child", [("name", k2)])]), inner_abs), inner_abs, ("not", inner_abs)])
+            mid = [(rng.choice(["child", "desc"]), [rng.choice([("name", k1), ("wild",)])]), ("child", [("filter", inner_test)])]
+            if rng.random() < 0.3: mid = [("child", [("wild",)]), ("child", [("filter", ("rel", mid))])]
+            q = [(rng.choice(["child", "desc"]), [("filter", ("rel", mid))])]
+            if rng.random() < 0.4: q.insert(0, ("child", [rng.choice([("name", k1), ("wild",)])]))
         if "filter" not in repr(q):
             q.append(("child", [("filter", gen.gen_test(rng, names, gen.BUILTINS, 2))]))
         text = gen.render_query(rng, q)
